@@ -8,7 +8,9 @@ import (
 	"go/token"
 	"go/types"
 	"golang.org/x/tools/go/packages"
+	"os"
 	"os/exec"
+	"path/filepath"
 	"regexp"
 	"sort"
 	"strconv"
@@ -35,13 +37,18 @@ type BCESite struct {
 	InlinedFrom string
 }
 
+var asmPanicRe = regexp.MustCompile(`\(([^()]*\.go):(\d+)\)\s+CALL\s+runtime\.(panicBounds|panicIndex\w*|panicSlice\w*)\(SB\)`)
+
 var bceRe = regexp.MustCompile(`^(.*\.go):(\d+):(\d+): Found (IsInBounds|IsSliceInBounds)`)
 
 // RunBCE compiles the given packages with the prove pass's bounds-check
 // debug output enabled and returns the residual sites. The go command caches
 // and replays compiler output, so repeated runs are cheap.
 func (p *Prog) RunBCE(pkgs []string) ([]BCESite, error) {
-	args := []string{"build", "-gcflags=" + p.ModPath + "/...=-d=ssa/check_bce/debug=1"}
+	// -S: the assembly listing shows the bounds-failure calls the compiler kept. A check the prove pass decided
+	// ALWAYS fails is turned into an unconditional panic call and is no longer reported as "Found IsInBounds", so the
+	// report alone would miss an index that is out of range on every execution of its branch.
+	args := []string{"build", "-gcflags=" + p.ModPath + "/...=-d=ssa/check_bce/debug=1 -S"}
 	if p.Cfg.Tags != "" {
 		args = append(args, "-tags="+p.Cfg.Tags)
 	}
@@ -54,6 +61,9 @@ func (p *Prog) RunBCE(pkgs []string) ([]BCESite, error) {
 	var out bytes.Buffer
 	cmd.Stdout, cmd.Stderr = &out, &out
 	err := cmd.Run()
+	if d := os.Getenv("SA_BCE_DUMP"); d != "" {
+		_ = os.WriteFile(fmt.Sprintf("%s.%s.%s.%s", d, p.Cfg.GOOS, p.Cfg.GOARCH, p.Cfg.Tags), []byte(strings.Join(args, " ")+"\n"+out.String()), 0o644)
+	}
 	var sites []BCESite
 	for _, line := range strings.Split(out.String(), "\n") {
 		m := bceRe.FindStringSubmatch(strings.TrimSpace(line))
@@ -65,6 +75,35 @@ func (p *Prog) RunBCE(pkgs []string) ([]BCESite, error) {
 		s := BCESite{File: m[1], Line: ln, Col: col, Kind: m[4]}
 		p.locateBCE(&s)
 		sites = append(sites, s)
+	}
+	reported := map[string]bool{}
+	for _, st := range sites {
+		reported[fmt.Sprintf("%s:%d", st.File, st.Line)] = true
+	}
+	kept := map[string]bool{}
+	for _, line := range strings.Split(out.String(), "\n") {
+		m := asmPanicRe.FindStringSubmatch(line)
+		if m == nil {
+			continue
+		}
+		file := strings.TrimPrefix(m[1], "./")
+		if i := strings.Index(file, p.Cfg.Dir+"/"); i >= 0 {
+			file = file[i+len(p.Cfg.Dir)+1:]
+		} else if abs, e := filepath.EvalSymlinks(p.Cfg.Dir); e == nil && strings.HasPrefix(file, abs+"/") {
+			file = file[len(abs)+1:]
+		}
+		if strings.HasPrefix(file, "/") || strings.HasPrefix(file, "$GOROOT") {
+			continue // inlined library code outside the module
+		}
+		ln, _ := strconv.Atoi(m[2])
+		key := fmt.Sprintf("%s:%d", file, ln)
+		if reported[key] || kept[key] {
+			continue
+		}
+		kept[key] = true
+		st := BCESite{File: file, Line: ln, Kind: "bounds failure the compiler kept without reporting it (proved to fail on every execution of its branch)"}
+		p.locateBCE(&st)
+		sites = append(sites, st)
 	}
 	if err != nil && len(sites) == 0 {
 		return nil, fmt.Errorf("go build for BCE failed: %v: %s", err, trimTo(out.String(), 500))
@@ -144,6 +183,11 @@ func (p *Prog) locateBCE(s *BCESite) {
 							s.InlinedFrom = ""
 							if callee, _ := typeutil.Callee(pk.TypesInfo, call).(*types.Func); callee != nil && callee.Pkg() != nil && p.InModule(callee.Pkg().Path()) {
 								s.InlinedFrom = callee.FullName()
+							} else if callee != nil && callee.Pkg() != nil && isStdScalarFunc(callee) {
+								// e.g. math/bits.Len64 on 32-bit targets, where it is not an intrinsic: the table lookup of its
+								// body is reported at the call. Its operands are scalars, so the check cannot depend on the length
+								// of any of this repository's data; totality of the standard library is in the trusted base.
+								s.InlinedFrom = callee.FullName() + " (standard library, scalar operands only)"
 							}
 						}
 					}
@@ -190,6 +234,25 @@ func (p *Prog) locateBCE(s *BCESite) {
 			return
 		}
 	}
+}
+
+// isStdScalarFunc: a standard-library function all of whose parameters (and receiver, if any) are numeric or boolean.
+func isStdScalarFunc(f *types.Func) bool {
+	first := strings.SplitN(f.Pkg().Path(), "/", 2)[0]
+	if strings.Contains(first, ".") {
+		return false
+	}
+	sig, ok := f.Type().(*types.Signature)
+	if !ok || sig.Recv() != nil || sig.Variadic() {
+		return false
+	}
+	for i := 0; i < sig.Params().Len(); i++ {
+		b, ok := sig.Params().At(i).Type().Underlying().(*types.Basic)
+		if !ok || b.Info()&(types.IsNumeric|types.IsBoolean) == 0 {
+			return false
+		}
+	}
+	return true
 }
 
 func absInt(x int) int {
